@@ -119,6 +119,29 @@ def literal_bare(j):
     return literal(j)
 
 
+def literal_exp(j):
+    """the same number in exponent notation (lower-case e, as the lexer reads it): 110 -> 1.1e2, 0.3 -> 3e-1; None when not a plain number"""
+    if j['k'] != 'num':
+        return None
+    from decimal import Decimal
+    v = py_value(j)
+    if v < 0:
+        return None
+    m, _, e = f'{Decimal(repr(v)):e}'.lower().partition('e')
+    m = m.rstrip('0').rstrip('.') if '.' in m else m
+    return f'{m}e{int(e)}'
+
+
+def obs_litexp(pairs):
+    """both operands typed into the formula, the second one in exponent notation"""
+    forms = []
+    for a, b in pairs:
+        la, lb = literal(a), literal_exp(b)
+        forms += [f'={la}{o}{lb}' for _, o in OPS] + [f'={lb}{o}{la}' for _, o in OPS]
+    res = repo.Probe(forms).eval()
+    return [six(res[12 * j:12 * j + 12]) for j in range(len(pairs))]
+
+
 def obs_mix(pairs):
     """the first operand lives in a cell (any kind, blank included), the second is typed into the formula: =A1>-1 and =-1<A1"""
     consts, forms = {}, []
@@ -134,7 +157,7 @@ def obs_mix(pairs):
 def _job(args):
     mode, pairs = args
     try:
-        return {'ovr': obs_ovr, 'cell': obs_cell, 'lit': obs_lit, 'mix': obs_mix}[mode](pairs)
+        return {'ovr': obs_ovr, 'cell': obs_cell, 'lit': obs_lit, 'mix': obs_mix, 'litexp': obs_litexp}[mode](pairs)
     except Exception as e:
         return {'harness_error': f'{type(e).__name__}: {e}'}
 
@@ -146,6 +169,8 @@ def in_mode(mode, a, b):
         return a['k'] != 'day' and b['k'] != 'day'
     if mode == 'mix':
         return a['k'] != 'day' and literal(b) is not None
+    if mode == 'litexp':
+        return literal(a) is not None and literal_exp(b) is not None
     return literal(a) is not None and literal(b) is not None
 
 
@@ -225,7 +250,7 @@ def gen(run):
     run.parts['pairs_pinned'] = sum(1 for x in recs if x['c'] in (-1, 0, 1))
     run.parts['pairs_laws_only'] = sum(1 for x in recs if x['c'] == 2)
     pairs = [(x['a'], x['b']) for x in recs]
-    obs = observe(run, pairs, ['ovr', 'cell', 'lit', 'mix'])
+    obs = observe(run, pairs, ['ovr', 'cell', 'lit', 'mix', 'litexp'])
     judge_observations(run, obs, 'gen')
     # a sample through the public file path (xlsx -> Parser -> Executor(class_file))
     rng = random.Random(run.seed)
@@ -316,6 +341,6 @@ def check(run):
 
 def replay(run, case):
     i = case['in']
-    mode = i['mode'] if i['mode'] in ('ovr', 'cell', 'lit', 'mix') else 'cell'
+    mode = i['mode'] if i['mode'] in ('ovr', 'cell', 'lit', 'mix', 'litexp') else 'cell'
     obs = observe(run, [(i['a'], i['b'])], [mode])
     judge_observations(run, obs, 'replay')
